@@ -274,6 +274,15 @@ class Interp:
 
     def assign(self, lhs, v, env):
         lhs = H.unwrap(lhs)
+        if H.is_k(lhs, "unary") and lhs["op"] == "*":
+            # `*r = v` with r a reference to a struct value: references are transparent, the object is updated in place
+            tgt = self.ev(lhs["e"], env)
+            if isinstance(tgt, tuple) and tgt and tgt[0] == "obj":
+                self.replace_obj(tgt, v)
+                return
+            inner = H.unwrap(lhs["e"])
+            if H.is_k(inner, "path") and inner.get("res") == "local" and not (isinstance(tgt, tuple) and tgt and tgt[0] == "obj"):
+                raise H.Unsupported("assignment through a reference to a scalar")
         if H.is_k(lhs, "field"):
             base = self.ev(lhs["base"], env)
             if isinstance(base, tuple) and base[0] == "obj":
@@ -283,6 +292,13 @@ class Interp:
             env[lhs["name"]] = v
             return
         raise H.Unsupported("assignment target")
+
+    def replace_obj(self, tgt, v):
+        if isinstance(v, tuple) and v and v[0] == "obj":
+            tgt[2].clear()
+            tgt[2].update(v[2])
+            return
+        raise H.Unsupported("whole-value assignment of %r through a reference" % (v,))
 
     def field(self, base, name):
         if isinstance(base, tuple):
